@@ -5,7 +5,8 @@ import ast
 from .. import AnalysisError
 from ..engine import rule
 from ..flow import PRUNE, Violation, cmp_sides, explore, implied_atoms, \
-    is_none_const, path_ends, path_is, raising_node, store_value, \
+    is_none_const, path_ends, path_is, prov_has, provenance, raising_node, \
+    store_value, \
     strip_not, truth_test
 from ..model import dotted, walk_local
 from ..tables import const_value, struct_fields
@@ -836,3 +837,110 @@ def r7(R):
     R.require(seen[0] or vs, 'read_index no longer records the last tid')
     for v in vs:
         R.violation(v.node, v.message, g, v.path)
+
+
+# ------------------------------------------------------------------ C01.R8
+@rule('C01.R8', 'the bounded copy helper never reads more than what is left '
+      'to copy: the size of each read is established not to exceed the '
+      'remaining count after the count last changed', props=['C13', 'C14'],
+      min_instances=1)
+def r8(R):
+    f = R.prog.func('ZODB.utils.cp')
+    g, b, F = R.cfg(f, None, max_depth=0)
+    ps = f.params
+    R.require(len(ps) >= 3, 'cp(f1, f2, length, ...) changed its signature')
+    src, remaining = ps[0], ps[2]
+
+    def is_rem(e):
+        return isinstance(e, ast.Name) and e.id == remaining
+
+    def is_read(op):
+        if op.kind != 'call':
+            return False
+        fn = op.ast.func
+        if isinstance(fn, ast.Attribute) and fn.attr == 'read' and \
+                isinstance(fn.value, ast.Name) and fn.value.id == src:
+            return True
+        if isinstance(fn, ast.Name):
+            pv = provenance(fn, op.node.frame, F)
+            return ('param', src) in pv and ('attr', 'read') in pv
+        return False
+
+    def bounded_expr(e, known):
+        """`e` cannot exceed the remaining count."""
+        if is_rem(e):
+            return True
+        if isinstance(e, ast.Name) and e.id in known:
+            return True
+        if isinstance(e, ast.Call) and isinstance(e.func, ast.Name) and \
+                e.func.id == 'min' and any(bounded_expr(a, known)
+                                           for a in e.args):
+            return True
+        if isinstance(e, ast.IfExp):
+            # a if a < rem else rem   (either spelling)
+            for l, op, r in cmp_sides(e.test):
+                if is_rem(r) and isinstance(l, ast.Name):
+                    if op in (ast.Lt, ast.LtE) and ast.dump(e.body) == \
+                            ast.dump(l) and bounded_expr(e.orelse, known):
+                        return True
+                    if op in (ast.Gt, ast.GtE) and ast.dump(e.orelse) == \
+                            ast.dump(l) and bounded_expr(e.body, known):
+                        return True
+        return False
+
+    nreads = [0]
+
+    def edge(node, known, lab, tgt):
+        if node.kind == 'test' and lab in ('T', 'F'):
+            for e, truth in implied_atoms(node.ast, lab):
+                for l, op, r in cmp_sides(e):
+                    if is_rem(r) and isinstance(l, ast.Name):
+                        if (op in (ast.LtE, ast.Lt) and truth) or (
+                                op in (ast.Gt,) and not truth):
+                            known = known | {l.id}
+        if lab in ('e', 'eb'):
+            return known
+        for op in F.ops(node):
+            if op.kind in ('store', 'aug') and op.path and \
+                    op.path[0] == '%local':
+                name = op.path[1]
+                if name == remaining:
+                    # the count changed: nothing is known to be within it
+                    # (an initialisation before the loop included)
+                    known = frozenset()
+                elif op.kind == 'store':
+                    v = store_value(op)
+                    if v is not None and bounded_expr(v, known):
+                        known = known | {name}
+                    else:
+                        known = known - {name}
+                else:
+                    known = known - {name}
+        return known
+
+    def at(node, known):
+        for op in F.ops(node):
+            if is_read(op):
+                a = op.ast.args[0] if op.ast.args else None
+                if a is None or not bounded_expr(a, known):
+                    return Violation(
+                        'cp() reads `%s` bytes from the source although '
+                        'fewer may be left to copy (the size was last '
+                        'bounded before the remaining count changed): it '
+                        'copies bytes beyond the requested length -- at '
+                        'vote, stale bytes of an earlier, larger '
+                        'transaction from the staging file end up in the '
+                        'data file in front of the trailing length' % (
+                            ast.unparse(a) if a is not None else 'all'))
+        return known
+
+    for nid in g.reachable():
+        for op in F.ops(g.nodes[nid]):
+            if is_read(op):
+                nreads[0] += 1
+                R.instance('cp: %s' % g.nodes[nid].text(50))
+    vs, stats = explore(g, frozenset(), at=at, edge=edge)
+    R.count(stats)
+    for v in vs:
+        R.violation(v.node, v.message, g, v.path)
+    R.require(nreads[0] >= 1, 'cp() no longer reads from its source')
